@@ -30,6 +30,8 @@ func (c *child) canonical(kind string) {
 		c.canonContain()
 	case "canon-dma-samepid":
 		c.canonSamePID()
+	case "canon-dma-reorder":
+		c.canonReorder()
 	case "canon-dma-stale":
 		c.canonStale()
 	default:
@@ -367,3 +369,66 @@ var flushLastPages = func() int {
 	}
 	return 128
 }()
+
+var reorderPages = func() int {
+	if v, err := strconv.Atoi(os.Getenv("C11_ROPAGES")); err == nil && v > 0 {
+		return v
+	}
+	return 256
+}()
+
+// canonReorder: multi-page copies (16-64 KiB, position-dependent data) through
+// the DMA engine while a long memory-bound kernel of ANOTHER context runs on
+// another queue and keeps the DRAM banks busy with L2 traffic. The per-page
+// pieces of a copy go to different banks (4 KiB interleaving), the banks answer
+// at different speeds, so memory responses reach the DMA engine out of issue
+// order (counter dma_responses_out_of_issue_order; the copied buffers are not
+// touched by the kernel, and their context never launched a kernel, so no
+// flush quiets the traffic).
+func (c *child) canonReorder() {
+	th := c.canonThread()
+	ng := c.cfg.NGPU
+	// context X: the copied buffers (on the GPU that runs the kernel; with 2 GPUs
+	// one buffer is distributed over both)
+	kindC := "plain"
+	if ng > 1 {
+		kindC = "dist"
+	}
+	lsX := layoutSpec{Sizes: []int{64, 16 * pageSize, 64, 16 * pageSize, 64}, Kinds: []string{"plain", "plain", "plain", kindC, "plain"}, GPUs: []int{1, 1, 1, 1, 1}, NQ: 2}
+	x := c.buildCtx(lsX, th.r, nil)
+	// context Y: the kernel's buffer
+	lsY := layoutSpec{Sizes: []int{reorderPages * pageSize}, Kinds: []string{"plain"}, GPUs: []int{1}, NQ: 2}
+	y := c.buildCtx(lsY, th.r, nil)
+	th.ms = []*ctxModel{x, y}
+	th.initArena(x)
+	th.initArena(y)
+	qOnGPU1 := func(m *ctxModel) int {
+		for i, g := range m.qGPU {
+			if g == 1 {
+				return i
+			}
+		}
+		return 0
+	}
+	bt, u32, u64 := typeByName("[]byte"), typeByName("[]uint32"), typeByName("[]uint64")
+	C1, C2 := x.bufs[1], x.bufs[3]
+	for round := 0; round < 2; round++ {
+		th.fq = qOnGPU1(y)
+		th.kernel(y, 0, reorderPages*pageSize/4, kern.Op(round%3), uint32(0x9E3779B1+2*round), false)
+		// chain of copies on one queue of X while the kernel runs
+		th.fq = 0
+		th.d2h(x, C1.Off, 16*pageSize, u64, false, "d2h", -1)
+		th.h2d(x, C2.Off+pageSize-24, 8*pageSize+100, bt, false, "h2d")
+		th.d2h(x, C2.Off+3, 12*pageSize, bt, false, "d2h", -1)
+		th.h2d(x, C1.Off+4, 4*pageSize, u32, false, "h2d")
+		th.d2h(x, C1.Off-32, 16*pageSize+64+32, bt, false, "d2h", -1) // spans the guards around C1
+		th.d2h(x, C2.Off, 16*pageSize, u32, false, "d2h", -1)
+		th.drainAll()
+		c.count("canonical_cases|reorder", 1)
+	}
+	th.fq = noForce
+	th.verify(x, 0, len(x.shadow), 1, -1)
+	th.verify(y, 0, len(y.shadow), 0, -1)
+	th.drainAll()
+	c.flush()
+}
